@@ -226,7 +226,11 @@ class ImageViewerState(MatplotlibDataViewerState):
                         layer_state.global_sync = False
 
     def _update_combo_ref_data(self):
-        self.ref_data_helper.set_multiple_data(self.layers_data)
+        # Only datasets with at least two dimensions can define the coordinate
+        # frame of the image: 1-d datasets (e.g. tables shown as scatter
+        # overlays) are never offered as reference data.
+        self.ref_data_helper.set_multiple_data([layer for layer in self.layers_data
+                                                if layer.ndim >= 2])
 
     def _update_combo_att(self):
         with delay_callback(self, 'x_att_world', 'y_att_world'):
@@ -318,7 +322,7 @@ class ImageViewerState(MatplotlibDataViewerState):
     def _set_reference_data(self):
         if self.reference_data is None:
             for layer in self.layers:
-                if isinstance(layer.layer, BaseData):
+                if isinstance(layer.layer, BaseData) and layer.layer.ndim >= 2:
                     self.reference_data = layer.layer
                     return
 
